@@ -1,6 +1,18 @@
 // C20 (lattice part) — face lattice of simplices in permutahedral representation: vertices, faces, cofaces, is_face_of.
 // Oracle: fk_oracle.h (simplices = chains of Z^d inside a unit cube, compared as sets of integer vertices).
+// The same source is built three times (spec.py): clang ASan+UBSan with vector<int> / vector<vector<size_t>> (unit lattice), g++ ASan+UBSan
+// (-DC20_GCC, unit lattice_gcc: g++'s UBSan reports loads of invalid bool values that clang optimises away) and with
+// vector<long> / vector<vector<unsigned>> (-DC20_ALT -DC20_COORD=long -DC20_INDEX=unsigned, unit lattice_alt).
+#include <array>
 #include "c20_checks.h"
+
+#if defined(C20_GCC)
+#define C20_PFX "g_"
+#elif defined(C20_ALT)
+#define C20_PFX "alt_"
+#else
+#define C20_PFX ""
+#endif
 
 using namespace c20;
 
@@ -13,7 +25,7 @@ const std::vector<fk::Simplex>& star_of_origin(std::size_t d, vh::Case& c) {
   auto it = cache.find(d);
   if (it != cache.end()) return it->second;
   std::set<fk::Simplex> all, alt;
-  fk::Simplex o{Vertex(d, 0)};
+  fk::Simplex o{fk::Vertex(d, 0)};
   for (std::size_t l = 0; l <= d; ++l) fk::cofaces(o, l, all);
   fk::star_of_origin_by_permutations(d, alt);
   C20_EXPECT(c, all == alt, "oracle.selfcheck", "star_two_definitions", "chain enumeration " + vh::str(all.size()) + " vs permutation enumeration " + vh::str(alt.size()));
@@ -78,7 +90,7 @@ fk::Simplex related(vh::Rng& r, const fk::Simplex& S, std::size_t d, std::string
     case 2: kind = "rel=coface_of_face"; return grow(random_face(S), 1 + r.below(3));
     case 3: {
       kind = "rel=translate";
-      Vertex t(d, 0);
+      fk::Vertex t(d, 0);
       if (r.chance(1, 3)) for (auto& x : t) x = 1;
       else if (r.chance(1, 2)) for (auto& x : t) x = -1;
       else t[r.below(d)] = r.chance(1, 2) ? 1 : -1;
@@ -147,7 +159,7 @@ void star_case(vh::Case& c, std::size_t d) {
   if (c.failed) return;
   const std::size_t idx = (std::size_t)c.k % S.size();
   const std::size_t round = (std::size_t)c.k / S.size();
-  Vertex t(d, 0);
+  fk::Vertex t(d, 0);
   if (round > 0) for (auto& x : t) x = (int)r.range(-9, 9);
   fk::Simplex model = fk::translated(S[idx], t);
   fk::Rep rep = fk::to_rep(model);
@@ -166,7 +178,7 @@ void star_case(vh::Case& c, std::size_t d) {
     if (!is_face_of_check(c, p, R, s, V, d, "rel=star_pair,dir=other_in_self")) return;
   }
   c.count("pairs.star_table_rows");
-  if (round == 0) c.count("exh.star_d" + vh::str(d) + ".round0");
+  if (round == 0) c.count(std::string("exh.") + C20_PFX + "star_d" + vh::str(d) + ".round0");
   c.count("shape.dim" + vh::str(model.size() - 1) + ".d" + vh::str(d));
   if (model.size() > 1 && model.size() <= d) c.nontrivial(vh::hash_str(vh::G().history));
   c.sample("{\"history\":\"" + vh::jesc(vh::G().history.substr(0, 400)) + "\"}");
@@ -188,12 +200,153 @@ void rand_case(vh::Case& c, std::size_t dlo, std::size_t dhi, int span) {
   c.sample("{\"history\":\"" + vh::jesc(vh::G().history.substr(0, 400)) + "\"}");
 }
 
+// ---------------------------------------------------------------------------------------------------------------- shapes
+// Every composition (n_0,...,n_k) of d+1 as the part sizes of the ordered partition, d = 5, 6 (7 in the thorough tier), with a random
+// assignment of the elements, and ALL coface dimensions without a cap.  The coface sets are too large for the oracle's chain search, so
+// they are judged by: listed count == closed form, every listed coface valid (dimension, well-formed, chain in a unit cube, contains the
+// simplex, recognised by is_face_of, canonical representation), all listed cofaces pairwise distinct.  count + valid + distinct => the set.
+std::array<std::uint64_t, 2> encode_relative(const fk::Simplex& Vx, const fk::Vertex& base) {
+  // exact encoding: every vertex of a coface lies in base + {-1,0,1}^d: 2 bits per coordinate, <= 8 vertices of <= 7 coordinates
+  std::array<std::uint64_t, 2> code{0, 0};
+  unsigned bit = 0;
+  for (auto& v : Vx) for (std::size_t i = 0; i < v.size(); ++i) {
+    std::uint64_t t = (std::uint64_t)(v[i] - base[i] + 1) & 3u;
+    code[bit / 64] |= t << (bit % 64);
+    bit += 2;
+  }
+  return code;
+}
+
+void shapes_case(vh::Case& c) {
+  vh::Rng& r = c.rng;
+  const std::size_t per_round = c.thorough ? 32 + 64 + 128 : 32 + 64;
+  const std::size_t idx = (std::size_t)c.k % per_round, round = (std::size_t)c.k / per_round;
+  std::size_t d; unsigned mask;
+  if (idx < 32) { d = 5; mask = (unsigned)idx; } else if (idx < 96) { d = 6; mask = (unsigned)idx - 32; } else { d = 7; mask = (unsigned)idx - 96; }
+  std::vector<std::size_t> sizes;  // composition of d+1: cut after position i iff bit i of mask
+  { std::size_t run = 1; for (std::size_t i = 0; i < d; ++i) { if (mask >> i & 1) { sizes.push_back(run); run = 1; } else ++run; } sizes.push_back(run); }
+  fk::Rep rep;
+  rep.v.resize(d);
+  for (auto& x : rep.v) x = (int)r.range(-10, 10);
+  std::vector<std::size_t> perm(d);
+  for (std::size_t i = 0; i < d; ++i) perm[i] = i;
+  r.shuffle(perm);
+  std::size_t pos = 0;
+  for (std::size_t j = 0; j < sizes.size(); ++j) {
+    const bool last = j + 1 == sizes.size();
+    std::vector<std::size_t> part(perm.begin() + pos, perm.begin() + pos + sizes[j] - (last ? 1 : 0));
+    pos += part.size();
+    if (last) part.push_back(d);
+    std::sort(part.begin(), part.end());
+    rep.parts.push_back(part);
+  }
+  fk::Simplex model = fk::normalized(fk::from_rep(rep));
+  if (round > 0 && r.chance(1, 2)) shuffle_inside_parts(r, rep);
+  PR s = make_pr(rep);
+  std::string shape;
+  for (auto z : sizes) shape += (shape.empty() ? "" : "+") + vh::str(z);
+  c.log("shape d=" + vh::str(d) + " composition=" + shape + " round=" + vh::str(round) + " simplex=" + show(s) + " = " + fk::show(model));
+  fk::Simplex V;
+  if (!vertex_checks(c, s, d, "built", V, &model)) return;
+  if (!face_checks(c, s, d, "built", V, nullptr)) return;
+  const std::size_t dim = s.dimension();
+  const bool demand_eq = parts_sorted(s);
+  for (std::size_t l = dim; l <= d; ++l) {
+    const std::string sig = "shape," + sg(d, dim) + ",l=" + std::to_string(l);
+    const std::uint64_t want_n = fk::coface_count(sizes, l);
+    std::set<std::array<std::uint64_t, 2>> seen;
+    std::uint64_t n = 0;
+    for (auto& x : s.coface_range(l)) {
+      if (++n > 4 * want_n + 16) break;
+      if (!C20_EXPECT(c, x.dimension() == l, "cofaces.dimension", sig, show(x) + " listed by coface_range(" + vh::str(l) + ") of " + show(s) + " has dimension " + vh::str(x.dimension()))) return;
+      if (!C20_EXPECT(c, wellformed(x, d), "cofaces.wellformed", sig, show(x) + " listed as coface of " + show(s) + " is not an ordered partition of 0..d with d in the last part")) return;
+      fk::Simplex Vx = fk::normalized(raw_vertices(x));
+      if (!C20_EXPECT(c, Vx.size() == l + 1 && fk::is_simplex(Vx), "cofaces.valid_simplex", sig, show(x) + " -> " + fk::show(Vx))) return;
+      if (!C20_EXPECT(c, fk::subset(V, Vx), "cofaces.contains", sig, "coface " + show(x) + " -> " + fk::show(Vx) + " does not contain " + fk::show(V))) return;
+      c.count("obs.is_face_of");
+      if (!C20_EXPECT(c, s.is_face_of(x), "cofaces.is_face_of", sig, show(s) + ".is_face_of(" + show(x) + ") is false for a listed coface")) return;
+      if (!C20_EXPECT(c, seen.insert(encode_relative(Vx, V.front())).second, "cofaces.set_equal", sig + ",duplicate", "coface " + fk::show(Vx) + " of " + show(s) + " listed twice")) return;
+      canonical_check(c, x, Vx, "from_coface_range");
+      if (n % 97 == 1) {
+        bool found = false, found_eq = false;
+        for (auto& f : x.face_range(dim)) if (fk::normalized(raw_vertices(f)) == V) { found = true; if (f == s) found_eq = true; }
+        c.count("obs.converse.face_of_coface");
+        if (!C20_EXPECT(c, found, "converse.face_of_coface", sig, show(s) + " is not among face_range(" + vh::str(dim) + ") of its listed coface " + show(x))) return;
+        if (demand_eq) {
+          c.count("obs.converse.face_of_coface_eq");
+          if (found_eq) c.count("cmp.converse.face_of_coface_eq");
+          else soft_violation(c, "converse.face_of_coface_eq", "built", show(s) + " is among the faces of its listed coface " + show(x) + " as a vertex set, but no listed face is operator== to it");
+        }
+      }
+    }
+    c.count("obs.coface_range");
+    c.count("obs.coface_range.uncapped");
+    c.count("obs.cofaces_listed", n);
+    c.count("obs.cofaces_listed.shapes", n);
+    if (l > dim && want_n > 1) c.count("obs.coface_range.proper_nontrivial");
+    // all listed cofaces are valid and pairwise distinct: the listed set is the set of all l-cofaces iff the count is the closed form's
+    if (!C20_EXPECT(c, n == want_n, "cofaces.count_closed_form", sig + (n < want_n ? ",missing" : ",extra"),
+                    show(s) + " (part sizes " + shape + ") coface_range(" + vh::str(l) + ") lists " + vh::str(n) + " distinct valid cofaces, closed form sum prod (m_i+1)! S(n_i, m_i+1) = " + vh::str(want_n))) return;
+  }
+  if (c.failed) return;
+  if (round == 0) c.count(std::string("exh.") + C20_PFX + "shapes_d" + vh::str(d) + ".round0");
+  c.count("shape.dim" + vh::str(dim) + ".d" + vh::str(d));
+  if (dim > 0 && dim < d) c.nontrivial(vh::hash_str(vh::G().history));
+  c.sample("{\"history\":\"" + vh::jesc(vh::G().history.substr(0, 400)) + "\"}");
+}
+
+// ---------------------------------------------------------------------------------------------------------------- box
+// Exhaustive is_face_of table over a box: every simplex whose lexicographically minimal vertex lies in {-1,0,1}^d (every ordered partition
+// of {0..d} with d in the last part at each of the 3^d base vertices), against every other one, both directions.  Unlike the star table
+// the two simplices need not share a vertex, and their base vertices differ in every possible direction.
+struct Box { std::vector<fk::Simplex> V; std::vector<PR> rep; };
+const Box& box_of(std::size_t d, vh::Case& c) {
+  static std::map<std::size_t, Box> cache;
+  auto it = cache.find(d);
+  if (it != cache.end()) return it->second;
+  const auto& S = star_of_origin(d, c);
+  Box& B = cache[d];
+  fk::Vertex v(d, -1), origin(d, 0);
+  for (;;) {
+    for (auto& s : S) if (s.front() == origin) { B.V.push_back(fk::translated(s, v)); B.rep.push_back(make_pr(B.V.back())); }
+    std::size_t i = 0;
+    for (; i < d; ++i) { if (v[i] < 1) { ++v[i]; break; } v[i] = -1; }
+    if (i == d) break;
+  }
+  return B;
+}
+
+void box_case(vh::Case& c, std::size_t d) {
+  vh::Rng& r = c.rng;
+  const Box& B = box_of(d, c);
+  if (c.failed) return;
+  const std::size_t a = (std::size_t)c.k % B.V.size(), round = (std::size_t)c.k / B.V.size();
+  fk::Rep rep = fk::to_rep(B.V[a]);
+  if (round > 0) shuffle_inside_parts(r, rep);
+  PR s = make_pr(rep);
+  c.log("box d=" + vh::str(d) + " row=" + vh::str(a) + " round=" + vh::str(round) + " simplex=" + show(s) + " = " + fk::show(B.V[a]) + " against all " + vh::str(B.V.size()) + " simplices based in {-1,0,1}^d");
+  fk::Simplex V;
+  if (!vertex_checks(c, s, d, "built", V, &B.V[a])) return;
+  for (std::size_t b = 0; b < B.V.size(); ++b) {
+    if (!is_face_of_check(c, s, V, B.rep[b], B.V[b], d, "rel=box_pair,dir=self_in_other")) return;
+    if (!is_face_of_check(c, B.rep[b], B.V[b], s, V, d, "rel=box_pair,dir=other_in_self")) return;
+  }
+  c.count("pairs.box_table_rows");
+  c.count("pairs.box_table_entries", 2 * B.V.size());
+  if (round == 0) c.count(std::string("exh.") + C20_PFX + "box_d" + vh::str(d) + ".round0");
+  if (V.size() > 1 && V.size() <= d) c.nontrivial(vh::hash_str(vh::G().history));
+  c.sample("{\"history\":\"" + vh::jesc(vh::G().history.substr(0, 400)) + "\"}");
+}
+
 }  // namespace
 
-VH_CONFIG("star_d1", [](vh::Case& c) { star_case(c, 1); });
-VH_CONFIG("star_d2", [](vh::Case& c) { star_case(c, 2); });
-VH_CONFIG("star_d3", [](vh::Case& c) { star_case(c, 3); });
-VH_CONFIG("star_d4", [](vh::Case& c) { star_case(c, 4); });
-VH_CONFIG("rand_lo", [](vh::Case& c) { rand_case(c, 1, 4, 1000); });
-VH_CONFIG("rand_hi", [](vh::Case& c) { rand_case(c, 5, 6, 40); });
+VH_CONFIG(C20_PFX "star_d1", [](vh::Case& c) { star_case(c, 1); });
+VH_CONFIG(C20_PFX "star_d2", [](vh::Case& c) { star_case(c, 2); });
+VH_CONFIG(C20_PFX "star_d3", [](vh::Case& c) { star_case(c, 3); });
+VH_CONFIG(C20_PFX "star_d4", [](vh::Case& c) { star_case(c, 4); });
+VH_CONFIG(C20_PFX "rand_lo", [](vh::Case& c) { rand_case(c, 1, 4, 1000); });
+VH_CONFIG(C20_PFX "rand_hi", [](vh::Case& c) { rand_case(c, 5, 6, 40); });
+VH_CONFIG(C20_PFX "shapes", shapes_case);
+VH_CONFIG(C20_PFX "box_d2", [](vh::Case& c) { box_case(c, 2); });
+VH_CONFIG(C20_PFX "box_d3", [](vh::Case& c) { box_case(c, 3); });
 VH_MAIN()
